@@ -27,6 +27,7 @@ RULE = (
     "argument before and after. out= is not generated; for copyto only the source (and where=) is watched. "
     "non-trivial = the call received a polynomial argument that needed no alignment (aliasing possible) or raised."
 )
+LEVEL_TEXT += (" Constructors called with numpy arrays (uint32/int64/uint8 exponent arrays, coefficient arrays) are watched as arguments too.")
 ASSUMPTIONS = [
     "explicit output targets are excluded by construction",
     "the returned object may alias an argument (numpy views do); only modification of the arguments is a violation",
